@@ -63,7 +63,7 @@ func (m *c26Model) recordRules() {
 			}
 		case *ssa.Call:
 			g := calleeFn(x.Common())
-			if g == nil || g.Blocks == nil || g.Pkg != m.resyncFn.Pkg || depth >= 3 {
+			if g == nil || g.Blocks == nil || g.Pkg != m.sendFn.Pkg || depth >= 3 {
 				return nil, false
 			}
 			args := (CallSite{Instr: x}).Args()
@@ -107,7 +107,7 @@ func (m *c26Model) recordRules() {
 	// readsTable: g (transitively, inside the package) loads elements of cacheStatuses
 	var readsTable func(g *ssa.Function, seen map[*ssa.Function]bool) bool
 	readsTable = func(g *ssa.Function, seen map[*ssa.Function]bool) bool {
-		if g == nil || g.Blocks == nil || seen[g] || g.Pkg != m.resyncFn.Pkg {
+		if g == nil || g.Blocks == nil || seen[g] || g.Pkg != m.sendFn.Pkg {
 			return false
 		}
 		seen[g] = true
